@@ -9,6 +9,8 @@ import (
 	"github.com/Tnze/go-mc/nbt"
 )
 
+var errNegativeLength = errors.New("dynbt: negative length")
+
 func (v *Value) UnmarshalNBT(tagType byte, r nbt.DecoderReader) error {
 	v.tag = tagType
 	var buf [8]byte
@@ -22,19 +24,19 @@ func (v *Value) UnmarshalNBT(tagType byte, r nbt.DecoderReader) error {
 		v.data = append(v.data[:0], n)
 
 	case nbt.TagShort:
-		if _, err := r.Read(buf[:2]); err != nil {
+		if _, err := io.ReadFull(r, buf[:2]); err != nil {
 			return err
 		}
 		v.data = append(v.data[:0], buf[:2]...)
 
 	case nbt.TagInt, nbt.TagFloat:
-		if _, err := r.Read(buf[:4]); err != nil {
+		if _, err := io.ReadFull(r, buf[:4]); err != nil {
 			return err
 		}
 		v.data = append(v.data[:0], buf[:4]...)
 
 	case nbt.TagLong, nbt.TagDouble:
-		if _, err := r.Read(buf[:]); err != nil {
+		if _, err := io.ReadFull(r, buf[:]); err != nil {
 			return err
 		}
 		v.data = append(v.data[:0], buf[:]...)
@@ -44,8 +46,11 @@ func (v *Value) UnmarshalNBT(tagType byte, r nbt.DecoderReader) error {
 		if err != nil {
 			return err
 		}
+		if n < 0 {
+			return errNegativeLength
+		}
 
-		v.data = append(v.data[:0], make([]byte, 4+n)...)
+		v.data = append(v.data[:0], make([]byte, 4+int(n))...)
 		binary.BigEndian.PutUint32(v.data, uint32(n))
 
 		_, err = io.ReadFull(r, v.data[4:])
@@ -58,8 +63,11 @@ func (v *Value) UnmarshalNBT(tagType byte, r nbt.DecoderReader) error {
 		if err != nil {
 			return err
 		}
+		if n < 0 {
+			return errNegativeLength
+		}
 
-		v.data = append(v.data[:0], make([]byte, 2+n)...)
+		v.data = append(v.data[:0], make([]byte, 2+int(n))...)
 		binary.BigEndian.PutUint16(v.data, uint16(n))
 
 		_, err = io.ReadFull(r, v.data[2:])
@@ -76,6 +84,9 @@ func (v *Value) UnmarshalNBT(tagType byte, r nbt.DecoderReader) error {
 		length, err := readInt32(r)
 		if err != nil {
 			return err
+		}
+		if length < 0 {
+			return errNegativeLength
 		}
 
 		v.list = v.list[:0]
@@ -114,8 +125,11 @@ func (v *Value) UnmarshalNBT(tagType byte, r nbt.DecoderReader) error {
 		if err != nil {
 			return err
 		}
+		if n < 0 {
+			return errNegativeLength
+		}
 
-		v.data = append(v.data[:0], make([]byte, 4+n*4)...)
+		v.data = append(v.data[:0], make([]byte, 4+int(n)*4)...)
 		binary.BigEndian.PutUint32(v.data, uint32(n))
 
 		_, err = io.ReadFull(r, v.data[4:])
@@ -128,14 +142,20 @@ func (v *Value) UnmarshalNBT(tagType byte, r nbt.DecoderReader) error {
 		if err != nil {
 			return err
 		}
+		if n < 0 {
+			return errNegativeLength
+		}
 
-		v.data = append(v.data[:0], make([]byte, 4+n*8)...)
+		v.data = append(v.data[:0], make([]byte, 4+int(n)*8)...)
 		binary.BigEndian.PutUint32(v.data, uint32(n))
 
 		_, err = io.ReadFull(r, v.data[4:])
 		if err != nil {
 			return err
 		}
+
+	default:
+		return fmt.Errorf("dynbt: unknown tag type %#02x", tagType)
 	}
 	return nil
 }
